@@ -1151,11 +1151,11 @@ theorem ListRel.and_mem {α β : Type} {R : α → β → Prop} {P : α → Prop
 def NameRel (bp bf : SecBuf) : Prop := bp.nameOff = bf.nameOff → bp.name = [] ∨ bp.name = bf.name
 
 theorem getString_none_data (b : SecBuf) (idx : BitVec 32) (h : b.data = none) : getString b idx = .ok none := by
-  unfold getString; rw [h]; rfl
+  rw [LoadTie.getString_hand, h]; rfl
 
 theorem getString_congr {bp bf : SecBuf} (hd : bp.data = bf.data) (hs : bp.size = bf.size) (idx : BitVec 32) :
     getString bp idx = getString bf idx := by
-  unfold getString; rw [hd, hs]
+  rw [LoadTie.getString_hand, LoadTie.getString_hand, hd, hs]
 
 theorem namesPure_names (c : Cls) (enc : Enc) (hdr : Bytes) (img : Bytes) (k : Nat) (kind : StreamKind)
     (hlen : img.length < 9223372036854775808) (lsp lsf : LoadSt) (secsp secsf : List SecBuf)
